@@ -5,8 +5,8 @@
     clusterClient.do with redirectOrNew / shouldRefreshRetry).  Go map iteration order is universally
     quantified ([Permutation]); a concurrent topology refresh is an input of every attempt. *)
 From Coq Require Import List Arith NArith ZArith Bool Lia Permutation.
-Require Import RV.Model.Base RV.Model.ClusterTopo RV.Model.ClusterSpec RV.Model.Retry RV.Model.ClusterDo.
-Require Import RV.Proofs.ClusterTopoProofs RV.Proofs.ClusterSpecProofs RV.Proofs.ClusterDoProofs.
+Require Import RV.Model.Base RV.Model.ClusterTopo RV.Model.ClusterSpec RV.Model.ClusterShardSpec RV.Model.Retry RV.Model.ClusterDo.
+Require Import RV.Proofs.ClusterTopoProofs RV.Proofs.ClusterSpecProofs RV.Proofs.ClusterShardProofs RV.Proofs.ClusterDoProofs.
 Import ListNotations.
 Open Scope Z_scope.
 
@@ -90,6 +90,44 @@ Proof.
 Qed.
 Print Assumptions C19_table_unlisted.
 
+(** CLUSTER SHARDS: a reply that encodes the abstract answer [l] is parsed into one group per shard
+    primary (the last online master entry with an endpoint); the group carries the shard's ranges,
+    starts with the primary, and contains only nodes that are online and have an endpoint. *)
+Theorem C19_parse_shards_spec : forall dh tls l,
+  exists gs, parse_shards dh tls (enc_shards l) = Ok gs /\
+    NoDup (map fst gs) /\
+    (forall k g, In (k, g) gs ->
+        hd_error (g_nodes g) = Some k /\
+        exists s, In s l /\ shard_primary dh tls s = Some k /\ g_slots g = sd_ranges s /\
+                  forall a, In a (g_nodes g) -> exists n, In n (sd_nodes s) /\ hn_online n = true /\ hnode_addr dh tls n = Some a) /\
+    (forall s p, In s l -> shard_primary dh tls s = Some p -> assoc_get p gs <> None).
+Proof.
+  intros dh tls l. destruct (parse_shards_spec dh tls l) as [gs [E [ND HD FROM HAS]]].
+  exists gs. split; [exact E|]. split; [exact ND|]. split; [|exact HAS].
+  intros k g Hin. split; [rewrite Forall_forall in HD; exact (HD _ Hin)|].
+  destruct (FROM k g Hin) as [s [I [P [S K]]]]. exists s. split; [exact I|]. split; [exact P|]. split; [exact S|].
+  intros a Ha. specialize (K a Ha). unfold kept_of in K.
+  destruct (hkept dh tls (sd_nodes s) [] None) as [kept m'] eqn:HK. cbn [fst] in K.
+  destruct (hkept_sound dh tls _ _ _ _ _ HK a K) as [[]|X]. exact X.
+Qed.
+Print Assumptions C19_parse_shards_spec.
+
+(** … and the table built from it sends every slot of a listed range to the shard's primary, in
+    every iteration order, when shards have distinct primaries and all listers of the slot agree *)
+Theorem C19_table_shards : forall dh tls l c sh m r s,
+  t_kind c <> CfgReplicaOnly ->
+  In sh l -> shard_primary dh tls sh = Some m -> In r (sd_ranges sh) -> covers r s = true ->
+  (forall sh' m', In sh' l -> shard_primary dh tls sh' = Some m' ->
+      (m' = m -> sh' = sh) /\ ((exists r', In r' (sd_ranges sh') /\ covers r' s = true) -> m' = m)) ->
+  exists gs, parse_shards dh tls (enc_shards l) = Ok gs /\
+             forall o t, Permutation (map snd gs) o -> rebuild c o = Ok t -> tb_w t s = Some m.
+Proof.
+  intros dh tls l c sh m r s Hk Hin Pm Hr Hc Hu.
+  destruct (shards_table dh tls l c sh m r s Hk Hin Pm Hr Hc Hu) as [gs [E W]]. exists gs. split; [exact E|].
+  intros o t P R. unfold rebuild in R. destruct (groups_ok o); [|discriminate]. inversion R; subst. cbn [tb_w]. now apply W.
+Qed.
+Print Assumptions C19_table_shards.
+
 (** For arbitrary groups (either reply format, any order): the table entry is the primary of the
     last group in iteration order that lists the slot; with a single lister, of that group. *)
 Theorem C19_table_groups : forall c l t s g p,
@@ -155,6 +193,19 @@ Example C19_nonvacuous_table :
              | Ok t => tb_w t 100 = Some (ex_h 49, 7000) /\ tb_w t 8192 = Some (ex_h 51, 7002) /\
                        length gs = 3%nat /\
                        option_map g_nodes (assoc_get (ex_h 51, 7002) gs) = Some [(ex_h 51, 7002)]
+             | _ => False
+             end
+  | _ => False
+  end.
+Proof. vm_compute. repeat split; reflexivity. Qed.
+
+Example C19_nonvacuous_shards :
+  let l := [ mkShard [(0, 8191)] [mkHnode (ex_h 49) 7000 0 false true; mkHnode (ex_h 50) 7001 0 true true; mkHnode (ex_h 51) 7002 0 false false];
+             mkShard [(8192, 16383)] [mkHnode (ex_h 52) 7003 7103 true true] ] in
+  match parse_shards [] true (enc_shards l) with
+  | Ok gs => match rebuild (mkTcfg CfgDefault (fun _ _ => 0) (fun _ => O)) (map snd gs) with
+             | Ok t => tb_w t 5 = Some (ex_h 50, 7001) /\ tb_w t 9000 = Some (ex_h 52, 7103) /\
+                       option_map g_nodes (assoc_get (ex_h 50, 7001) gs) = Some [(ex_h 50, 7001); (ex_h 49, 7000)]
              | _ => False
              end
   | _ => False
